@@ -301,7 +301,7 @@ func (h *hist) evQuery() {
 	if drop {
 		return
 	}
-	r, ok := h.waitOut(p.addr.String(), "r", []byte(t), 30*time.Second)
+	r, ok := h.waitOut(p.addr.String(), "r", []byte(t), 3*time.Second)
 	if !ok {
 		if _, isErr := h.waitOut(p.addr.String(), "e", []byte(t), 100*time.Millisecond); isErr {
 			return
